@@ -23,7 +23,7 @@ ID = "C11"
 PROPS = ["IsoVerif/Props/C11.lean", "IsoVerif/Props/C11Lists.lean", "IsoVerif/Props/C11Mirror.lean",
          "IsoVerif/Props/C11Profiles.lean", "IsoVerif/Props/C11Polya.lean", "IsoVerif/Props/C11Canonical.lean",
          # equivariance of the merged models (props/c11ext.py + props/c11x_*.py)
-         "IsoVerif/Props/C11Cigar.lean", "IsoVerif/Props/C11PolyA16.lean",
+         "IsoVerif/Props/C11Cigar.lean", "IsoVerif/Props/C11PolyA16.lean", "IsoVerif/Props/C11Finder.lean",
          "IsoVerif/Props/C11Regions.lean", "IsoVerif/Props/C11Counts.lean", "IsoVerif/Props/C11Ids.lean",
          "IsoVerif/Props/C11Sites.lean", "IsoVerif/Props/C11Assign.lean",
          "IsoVerif/Props/C11Resolver.lean", "IsoVerif/Props/C11Graph.lean",
@@ -32,7 +32,7 @@ PROPS = ["IsoVerif/Props/C11.lean", "IsoVerif/Props/C11Lists.lean", "IsoVerif/Pr
          "IsoVerif/Props/C11AssignMirror.lean", "IsoVerif/Props/C11Strand.lean"]
 TARGETS = ["IsoVerif.Props.C11", "IsoVerif.Props.C11Lists", "IsoVerif.Props.C11Mirror", "IsoVerif.Props.C11Profiles",
            "IsoVerif.Props.C11Polya", "IsoVerif.Props.C11Canonical",
-           "IsoVerif.Props.C11Cigar", "IsoVerif.Props.C11PolyA16",
+           "IsoVerif.Props.C11Cigar", "IsoVerif.Props.C11PolyA16", "IsoVerif.Props.C11Finder",
            "IsoVerif.Props.C11Regions", "IsoVerif.Props.C11Counts", "IsoVerif.Props.C11Ids", "IsoVerif.Props.C11Sites",
            "IsoVerif.Props.C11Assign", "IsoVerif.Props.C11Resolver", "IsoVerif.Props.C11Graph",
            "IsoVerif.Props.C11MirrorLists", "IsoVerif.Props.C11MirrorReadProfiles",
@@ -59,8 +59,9 @@ ASSUMPTIONS = ["CPython int semantics = Lean Int", "float results compared as ex
                "reflection of list sweeps is stated for sorted disjoint well-formed lists (as produced from alignments/annotations)",
                "merged models: BAM coordinates are non-negative before and after a shift (get_read_blocks truthiness, the "
                "collector's fetch window), shifts of the region splitter are multiples of COVERAGE_BIN (the property's own "
-               "quantifier), a gene is not within the fake-terminal-exon reach of the chromosome start (sentinel used as a "
-               "coordinate in detect_reference_exons_beyond_polya: hypotheses FarOriginA/T, SentinelInert*)",
+               "quantifier); the sentinel-as-coordinate defect of detect_reference_exons_beyond_polya / before_polyt found by "
+               "these proofs is FIXED in /repo (a2ae069): the assigner theorems carry no origin-distance hypothesis any more, "
+               "the pre-fix bodies (detectBeyondPolyaBuggy / detectBeforePolytBuggy) keep regression witnesses",
                "EndTie inputs (a block sharing exactly one end with a known feature and shorter than the overlap threshold) "
                "are outside the property's quantifier (exact positional tie); the asymmetry is proved as a witness"]
 
